@@ -284,3 +284,30 @@ func runC05(c *histCtx, it *Item) {
 	_ = w
 	verif.Reach("match")
 }
+
+func init() {
+	setups["C06"] = func(it *Item) any { return setupHist(it) }
+	runs["C06"] = func(c any, it *Item) { runC06(c.(*histCtx), it) }
+}
+
+// C06: two concurrent calls on one shared Regex are race-free and each returns
+// its sequential result. Mode = API of the first call, N = API of the second.
+func runC06(c *histCtx, it *Item) {
+	h1 := haystack(it, &c.set)
+	h2 := verif.Bytes("g", it.L)
+	for _, b := range h2 {
+		verif.Assume(c.set[b])
+	}
+	want1 := callAPI(c.fresh(), it.Mode, h1)
+	want2 := callAPI(c.fresh(), it.N, h2)
+	re := c.re
+	var got1, got2 []int
+	verif.Par(func() { got1 = callAPI(re, it.Mode, h1) }, func() { got2 = callAPI(re, it.N, h2) })
+	verif.SnapInts("got1", got1)
+	verif.SnapInts("got2", got2)
+	verif.SnapInts("want1", want1)
+	verif.SnapInts("want2", want2)
+	reachBool(c.std.Match(h1))
+	verif.Assert(eqInts(got1, want1), "C06 first concurrent call returned a result different from its sequential result")
+	verif.Assert(eqInts(got2, want2), "C06 second concurrent call returned a result different from its sequential result")
+}
